@@ -278,19 +278,60 @@ Theorem C03_div_dense_partial : forall (A : sparse Z) (T : dense Z), wf_sp zisz 
             den_sp x0 (impl_div_dense 0%Z xdivz A T) i = xdivz (zden_sp A i) (zden T i).
 Proof. exact div_dense_ieee_partial. Qed.
 
-(* finding A-07 (open): sparse / sparse exactly as pyttb computes it, transliterated over the generated helpers (pyttb's own
-   enumeration order of allsubs), is refuted ... *)
-Theorem C03_div_sparse_asis_refuted : ~ div_sparse_asis_stmt.
-Proof. exact div_sparse_asis_refuted. Qed.
-(* ... and is the element-wise quotient when both operands store the same subscripts in the same order (any quotient
-   function dv, any duplicate-free enumeration of the shape, fill value xnan = 0/0) *)
-Theorem C03_div_sparse_asis_partial : forall (V X : Type) (v0 : V) (isz : V -> bool) (x0 : X)
-  (dv : V -> V -> X) (xnan xzero : X) (alls : list idx) (A B : sparse V),
-  wf_sp isz A -> wf_sp isz B -> sshape B = sshape A -> sshape A <> [] -> ssubs B = ssubs A ->
-  NoDup alls -> (forall i, In i alls <-> inb (sshape A) i = true) -> xnan = dv v0 v0 ->
-  exists R, impl_div_asis v0 dv xnan xzero alls A B = Ok R /\ wf_struct R /\ sshape R = sshape A /\
+(* ---- sparse / sparse EXACTLY as pyttb computes it (repaired tree, e2beb21: finding A-07 fixed), transliterated over the
+        GENERATED tt_setdiff_rows / tt_intersect_rows / tt_ismember_rows (Model/C03Gen.v impl_div_sparse_gen).  What is still
+        open is finding C03-N7: x/0 is filled with NaN instead of +-inf and 0/x is stored as an explicit 0. ---- *)
+(* the full statement is refuted (4/0 at [1,0] is NaN, not +inf) ... *)
+Theorem C03_div_sparse_refuted : ~ div_sparse_stmt.
+Proof. exact div_sparse_refuted. Qed.
+
+(* ... the code, position by position, for ANY stored orders and supports, any quotient function dv and fill values, any
+   duplicate-free enumeration `alls` of the shape: structurally well-formed, EVERY position of the shape is stored, and the
+   stored value is div_fill = dv a b where both operands store the subscript (paired correctly), xnan where only self stores
+   it, xzero where only other stores it, xnan where neither does *)
+Theorem C03_div_sparse_gen_char : forall (V X : Type) (v0 : V) (x0 : X) (dv : V -> V -> X) (xnan xzero : X)
+  (alls : list idx) (A B : sparse V),
+  wf_struct A -> wf_struct B -> sshape B = sshape A -> sshape A <> [] ->
+  NoDup alls -> (forall i, In i alls <-> inb (sshape A) i = true) ->
+  exists R, impl_div_sparse_gen v0 dv xnan xzero alls A B = Ok R /\ wf_struct R /\ sshape R = sshape A /\
+            (forall i, In i (ssubs R) <-> inb (sshape A) i = true) /\
+            forall i, inb (sshape A) i = true -> den_sp x0 R i = div_fill v0 dv xnan xzero A B i.
+Proof. exact @impl_div_sparse_gen_char. Qed.
+
+(* ... in terms of the operands' values: the element-wise quotient at EVERY position where the dividend is zero or the divisor
+   is nonzero; xnan (= 0/0) where a nonzero is divided by an implicit zero (C03-N7); nnz = number of cells (C03-N7, stored 0) *)
+Theorem C03_div_sparse_partial : forall (V X : Type) (v0 : V) (isz : V -> bool) (x0 : X), (forall v, isz v = true <-> v = v0) ->
+  forall (dv : V -> V -> X) (xnan xzero : X) (alls : list idx) (A B : sparse V),
+  wf_sp isz A -> wf_sp isz B -> sshape B = sshape A -> sshape A <> [] ->
+  NoDup alls -> (forall i, In i alls <-> inb (sshape A) i = true) ->
+  xnan = dv v0 v0 -> (forall y, y <> v0 -> dv v0 y = xzero) ->
+  exists R, impl_div_sparse_gen v0 dv xnan xzero alls A B = Ok R /\ wf_struct R /\ sshape R = sshape A /\
+            length (ssubs R) = length alls /\
+            (forall i, inb (sshape A) i = true -> den_sp v0 A i = v0 \/ den_sp v0 B i <> v0 ->
+                       den_sp x0 R i = dv (den_sp v0 A i) (den_sp v0 B i)) /\
+            (forall i, inb (sshape A) i = true -> den_sp v0 A i <> v0 -> den_sp v0 B i = v0 -> den_sp x0 R i = xnan).
+Proof. exact @impl_div_sparse_gen_partial. Qed.
+
+(* ... hence the element-wise quotient EVERYWHERE when the operands have the same support, in any two stored orders (the
+   class on which finding A-07 produced wrong quotients) *)
+Theorem C03_div_sparse_same_support : forall (V X : Type) (v0 : V) (isz : V -> bool) (x0 : X), (forall v, isz v = true <-> v = v0) ->
+  forall (dv : V -> V -> X) (xnan xzero : X) (alls : list idx) (A B : sparse V),
+  wf_sp isz A -> wf_sp isz B -> sshape B = sshape A -> sshape A <> [] ->
+  (forall i, In i (ssubs A) <-> In i (ssubs B)) ->
+  NoDup alls -> (forall i, In i alls <-> inb (sshape A) i = true) ->
+  xnan = dv v0 v0 -> (forall y, y <> v0 -> dv v0 y = xzero) ->
+  exists R, impl_div_sparse_gen v0 dv xnan xzero alls A B = Ok R /\ wf_struct R /\ sshape R = sshape A /\
             forall i, inb (sshape A) i = true -> den_sp x0 R i = dv (den_sp v0 A i) (den_sp v0 B i).
-Proof. exact @impl_div_asis_partial. Qed.
+Proof. exact @impl_div_sparse_gen_same_support. Qed.
+
+(* the IEEE instance over pyttb's own enumeration of the shape (first mode slowest) *)
+Theorem C03_div_sparse_ieee : forall (A B : sparse Z), wf_sp zisz A -> wf_sp zisz B -> sshape B = sshape A -> sshape A <> [] ->
+  exists R, impl_div_sparse_gen 0%Z xdivz XNaN x0 (allsubsC (sshape A)) A B = Ok R /\ wf_struct R /\ sshape R = sshape A /\
+            length (ssubs R) = size (sshape A) /\
+            (forall i, inb (sshape A) i = true -> zden_sp A i = 0%Z \/ zden_sp B i <> 0%Z ->
+                       den_sp x0 R i = xdivz (zden_sp A i) (zden_sp B i)) /\
+            (forall i, inb (sshape A) i = true -> zden_sp A i <> 0%Z -> zden_sp B i = 0%Z -> den_sp x0 R i = XNaN).
+Proof. exact div_sparse_ieee_partial. Qed.
 
 Print Assumptions C03_neg.
 Print Assumptions C03_ones.
@@ -334,8 +375,11 @@ Print Assumptions C03_div_scalar.
 Print Assumptions C03_div_scalar_ieee.
 Print Assumptions C03_div_dense_refuted.
 Print Assumptions C03_div_dense_partial.
-Print Assumptions C03_div_sparse_asis_refuted.
-Print Assumptions C03_div_sparse_asis_partial.
+Print Assumptions C03_div_sparse_refuted.
+Print Assumptions C03_div_sparse_gen_char.
+Print Assumptions C03_div_sparse_partial.
+Print Assumptions C03_div_sparse_same_support.
+Print Assumptions C03_div_sparse_ieee.
 
 (* non-vacuity on concrete, non-symmetric 2x3 operands stored in different (unsorted) orders *)
 Local Open Scope Z_scope.
@@ -379,3 +423,13 @@ Example C03_example_more :
              map (den_sp x0 R) [[0; 0]; [1; 0]; [0; 1]]%nat = [XNaN; XPInf; XNInf]) /\
   map (den_sp x0 (impl_div_dense 0 xdivz exA (mkDense [2; 3]%nat [1; 0; 2; 0; 0; 3]))) [[1; 0]; [1; 1]; [0; 0]]%nat = [XPInf; x0; x0].
 Proof. repeat split; try (eexists; split; reflexivity); reflexivity. Qed.
+
+(* sparse / sparse on the witness of the (fixed) finding A-07 — same support, opposite stored orders — and on the witness of the
+   open finding C03-N7 *)
+Example C03_example_div_sparse :
+  (exists R, impl_div_sparse_gen 0 xdivz XNaN x0 (allsubsC [2; 2]%nat)
+               (mkSp [2; 2]%nat [[1; 1]; [0; 0]]%nat [3; 2]) (mkSp [2; 2]%nat [[0; 0]; [1; 1]]%nat [5; 7]) = Ok R /\
+             map (den_sp x0 R) [[0; 0]; [1; 0]; [0; 1]; [1; 1]]%nat = [xdivz 2 5; XNaN; XNaN; xdivz 3 7]) /\
+  (exists R, impl_div_sparse_gen 0 xdivz XNaN x0 (allsubsC [2; 2]%nat) wdA wdB = Ok R /\
+             ssubs R = [[1; 0]; [0; 0]; [1; 1]; [0; 1]]%nat /\ svals R = [XNaN; x0; x0; XNaN]).
+Proof. split; eexists; split; try reflexivity; split; reflexivity. Qed.
